@@ -193,6 +193,21 @@ def _mk_cmp(op, l, r):
         op, r = ">=", ("lit", str(int(r[1]) + 1))
     elif op == "<=" and intlit(r):
         op, r = "<", ("lit", str(int(r[1]) + 1))
+    if op in ("==", "!=") and r[0] == "call" and r[1] == "Iterator::count" and not (l[0] == "call" and l[1] == "Iterator::count"):
+        l, r = r, l
+    if l[0] == "call" and l[1] == "Iterator::count" and len(l[2]) == 1 and l[2][0][0] == "call" and l[2][0][1] == "Iterator::filter" \
+            and len(l[2][0][2]) == 2 and l[2][0][2][1][0] == "closure" and l[2][0][2][1][2] == 1:
+        # counting the matches to ask about all / none of them:  filter(p).count() == len  is  all(p);  filter(p).count() == 0  is  all(!p)
+        xs, clo = l[2][0][2]
+        res = None
+        if r[0] == "call" and r[1].endswith("::len") and len(r[2]) == 1 and r[2][0] == xs and op in ("==", "!="):
+            res = ("call", "Iterator::all", [xs, clo])
+        elif intlit(r) and (op, r[1]) in (("==", "0"), ("<", "1"), ("!=", "0"), (">=", "1")):
+            res = ("call", "Iterator::all", [xs, ("closure", clo[1], clo[2], _not(clo[3]))])
+            if (op, r[1]) in (("!=", "0"), (">=", "1")):
+                return _not(res)
+        if res is not None:
+            return res if op != "!=" else _not(res)
     if l[0] == "call" and l[1].endswith("::len") and len(l[2]) == 1 and intlit(r):
         # emptiness, however it is asked:  len == 0, len < 1  /  len != 0, len >= 1
         e = ("call", l[1][:-5] + "::is_empty", [l[2][0]])
@@ -1061,8 +1076,41 @@ def _mk_if_raw(c, t, e):
 
 
 
+def _is_empty_atom(c):
+    return c[0] == "call" and c[1].endswith("::is_empty") and len(c[2]) == 1 and _plain_place(c[2][0])
+
+
+def _plain_place(x):
+    while x[0] in ("field", "proj"):
+        x = x[1]
+    return x[0] == "param"
+
+
+def _redecide(x, known):
+    """x with its decision tables decided again under what the enclosing branch establishes (known: shown atom -> (atom, value))"""
+    key = next(iter(known))
+    xs = _show(known[key][0][2][0])
+    if "Iterator::all(" + xs + "," not in _show(x):
+        return x
+
+    def fn(n):
+        if n[0] in ("if", "early") and not _DECIDING[0]:
+            d = _decide(n, known)
+            if d is not None and d != n:
+                return d
+        return None
+    return rewrite(x, fn)
+
+
 def _mk_if(c, t, e):
     """if c {t} else {e}: boolean identities (_mk_if_raw), then the decision normal form for decision tables (_decide)"""
+    if not _DECIDING[0]:
+        # what is asked about a list of a parameter holds in the whole branch: tables further in are decided with that knowledge
+        a, pol = (c[2][0], False) if c[0] == "op" and c[1] == "Not" and len(c[2]) == 1 else (c, True)
+        if _is_empty_atom(a):
+            k = _show(a)
+            t = _redecide(t, {k: (a, pol)})
+            e = _redecide(e, {k: (a, not pol)})
     r = _mk_if_raw(c, t, e)
     if r[0] in ("if", "early") and not _DECIDING[0]:
         d = _decide(r)
@@ -1108,7 +1156,42 @@ def _cond_eval(c, asg):
     return asg[_show(c)]
 
 
-def _decide(t):
+def _exclusions(atoms):
+    """what is known about the atoms of a table among themselves: for A = xs.all(p), B = xs.all(!p), E = xs.is_empty():  A && B  only if E, and E
+    implies A and B. Returns a predicate over assignments (name -> bool) that is true for assignments no input can produce."""
+    rel = []
+    names = list(atoms)
+    for a in names:
+        ta = atoms[a]
+        if not (ta[0] == "call" and ta[1] == "Iterator::all" and len(ta[2]) == 2 and ta[2][1][0] == "closure"):
+            continue
+        for b in names:
+            tb = atoms[b]
+            if b <= a or not (tb[0] == "call" and tb[1] == "Iterator::all" and len(tb[2]) == 2 and tb[2][1][0] == "closure"):
+                continue
+            if ta[2][0] != tb[2][0] or ta[2][1][1:3] != tb[2][1][1:3] or _not(ta[2][1][3]) != tb[2][1][3] and _not(tb[2][1][3]) != ta[2][1][3]:
+                continue
+            for e in names:
+                te = atoms[e]
+                if te[0] == "call" and te[1].endswith("::is_empty") and len(te[2]) == 1 and te[2][0] == ta[2][0]:
+                    rel.append((a, b, e))
+    if not rel:
+        return None
+
+    def impossible(asg):
+        for a, b, e in rel:
+            if asg[a] and asg[b] and not asg[e]:
+                return True
+            if asg[e] and not (asg[a] and asg[b]):
+                return True
+        return False
+    return impossible
+
+
+_WILD = ("sym", "\x00any")
+
+
+def _decide(t, known=None):
     """An if / else tree that is a decision TABLE - the same pure condition is asked in more than one place (`if a && b {..} else if
     a {..} else if b {..} else {..}`, guard clauses over `!a && !b`, ..) - is written as the reduced decision tree over its atomic
     conditions in a fixed (alphabetical) order. `match (a, b) { (true, true) => .., .. }` takes the same form (_decide_table)."""
@@ -1142,10 +1225,19 @@ def _decide(t):
     atoms = {}
     for o in occ:
         atoms.update(o)
-    if not (2 <= len(atoms) <= 3):
+    fixed = {}
+    for k, (term, val) in (known or {}).items():
+        if k not in atoms:
+            atoms[k] = term
+        fixed[k] = val
+    free = [k for k in atoms if k not in fixed]
+    if not (2 <= len(free) <= 3) and not (fixed and 1 <= len(free) <= 3):
         return None
-    if not any(sum(1 for o in occ if k in o) >= 2 for k in atoms):
+    impossible = _exclusions(atoms)
+    if not any(sum(1 for o in occ if k in o) >= 2 for k in atoms) and impossible is None:
         return None                     # every condition asked once: a plain else-if chain, left as written
+    if fixed and impossible is None:
+        return None
     if any(x[0] in ("try", "seq", "early", "ret", "mut", "for") for a in atoms.values() for x in subterms(a)):
         return None                     # conditions that can leave the function or have effects are not reordered
 
@@ -1170,7 +1262,9 @@ def _decide(t):
     def leaf_of(asg):
         k = tuple(sorted(asg.items()))
         if k not in memo:
-            memo[k] = leaf(t, asg)
+            full = dict(asg)
+            full.update(fixed)
+            memo[k] = _WILD if impossible is not None and impossible(full) else leaf(t, full)
         return memo[k]
 
     def size(order, i, asg):
@@ -1180,12 +1274,15 @@ def _decide(t):
         nt, tb = size(order, i + 1, a)
         a = dict(asg); a[order[i]] = False
         ne, eb = size(order, i + 1, a)
-        if tb == eb:
+        if tb == eb or eb == _WILD:
             return nt, tb
+        if tb == _WILD:
+            return ne, eb
         return 1 + nt + ne, ("?", order[i], tb, eb)
     import itertools
-    names = min((list(o) for o in itertools.permutations(sorted(atoms))), key=lambda o: (size(o, 0, {})[0], o))
-    return _decide_table(names, atoms, leaf_of)
+    names = min((list(o) for o in itertools.permutations(sorted(free))), key=lambda o: (size(o, 0, {})[0], o))
+    r = _decide_table(names, atoms, leaf_of)
+    return None if r == _WILD else r
 
 
 def _decide_table(names, atoms, leaf_of):
@@ -1198,8 +1295,10 @@ def _decide_table(names, atoms, leaf_of):
         a = dict(asg)
         a[names[i]] = False
         eb = build(i + 1, a)
-        if tb == eb:
+        if tb == eb or eb == _WILD:
             return tb
+        if tb == _WILD:
+            return eb
         return _mk_if_raw(atoms[names[i]], tb, eb)
     _DECIDING[0] = True
     try:
